@@ -16,6 +16,7 @@ package handshake
 //@ ghost hsLastWriteAt Int stable
 //@ ghost hsChecked Bool stable
 //@ ghost hsCheckedAt Int stable
+//@ ghost hsClosed Bool stable
 //@ func io.ReadFull
 //@   modifies object arg1
 //@   ensures result1 == nil ==> result0 == len(arg1)
@@ -37,6 +38,7 @@ package handshake
 //@   ensures result != nil
 //@ func iface io.ReadWriteCloser.Close
 //@   modifies nothing
+//@   sets hsClosed = true
 //@ func (*github.com/anyproto/any-sync/net/secureservice/handshake/handshakeproto.Credentials).UnmarshalVT
 //@   modifies object arg0 kinds uint8
 //@ func (*github.com/anyproto/any-sync/net/secureservice/handshake/handshakeproto.Ack).UnmarshalVT
@@ -113,6 +115,7 @@ package handshake
 //@   ensures [keeps_pool]  hsep(h) && h.remoteCred == old(h.remoteCred) && h.remoteAck == old(h.remoteAck) && h.localAck == old(h.localAck) && h.remoteProto == old(h.remoteProto) && h.conn == old(h.conn)
 //@ func (*handshake).tryWriteErrAndClose
 //@   requires hwf(h) && hsep(h) && h.conn != nil
+//@   ensures [always_closes] hsClosed
 //@   ensures [ghost_frame] hsReads == old(hsReads) && hsLastReadAt == old(hsLastReadAt) && hsChecked == old(hsChecked) && hsCheckedAt == old(hsCheckedAt)
 //@   ensures [keeps_pool]  hsep(h) && h.remoteCred == old(h.remoteCred) && h.remoteAck == old(h.remoteAck) && h.localAck == old(h.localAck) && h.remoteProto == old(h.remoteProto) && h.conn == old(h.conn)
 
@@ -128,6 +131,7 @@ package handshake
 //@   ensures [ok_two_writes]    err == nil ==> hsWrites == old(hsWrites) + 2
 //@   ensures [ok_four_reads]    err == nil ==> hsReads == old(hsReads) + 4
 //@   ensures [ok_order]         err == nil ==> hsCheckedAt < hsLastWriteAt && hsLastWriteAt < hsLastReadAt
+//@   ensures [ok_stays_open]    err == nil ==> hsClosed == old(hsClosed)
 //@   ensures [released]         h.conn == nil && h.remoteCred.Version == 0 && h.remoteCred.ClientVersion == "" && h.remoteCred.Type == 0 && len(h.remoteCred.Payload) == 0 && h.remoteAck.Error == 0 && h.localAck.Error == 0
 //@ func incomingHandshake
 //@   requires hwf(h) && hsep(h) && conn != nil && cc != nil
@@ -136,6 +140,7 @@ package handshake
 //@   ensures [ok_two_writes]    err == nil ==> hsWrites == old(hsWrites) + 2
 //@   ensures [ok_four_reads]    err == nil ==> hsReads == old(hsReads) + 4
 //@   ensures [ok_order]         err == nil ==> hsCheckedAt < hsLastReadAt && hsLastReadAt < hsLastWriteAt
+//@   ensures [ok_stays_open]    err == nil ==> hsClosed == old(hsClosed)
 //@   ensures [released]         h.conn == nil && h.remoteCred.Version == 0 && h.remoteCred.ClientVersion == "" && h.remoteCred.Type == 0 && len(h.remoteCred.Payload) == 0 && h.remoteAck.Error == 0 && h.localAck.Error == 0
 
 // The pool's constructor creates the separately allocated parts the contracts above rely on.
